@@ -49,3 +49,42 @@ def record(H, result, exc=None, fid=False):
             s = '<unprintable summary>'
         SEEN.add(s)
         LASTPAIR[0] = [r, s]
+
+
+# ---------------------------------------------------------------- memoised functions of the code under test
+# CrossHair deliberately bypasses functools.lru_cache while tracing (every call runs the wrapped function).  A cache in
+# zope.testrunner is behaviour of the code under test: within one harness call - one modelled interpreter - a memoised
+# function must answer from its cache, as it does natively.  The worker installs `faithful_lru_call` in place of
+# CrossHair's patch; the generated wrapper calls fresh() at the start of every path (a fresh interpreter).
+MEMO = {}
+
+
+def fresh():
+    MEMO.clear()
+
+
+def faithful_lru_call(self, *a, **kw):
+    import functools
+    if not isinstance(self, functools._lru_cache_wrapper):
+        raise TypeError
+    wrapped = self.__wrapped__
+    if not (getattr(wrapped, '__module__', None) or '').startswith('zope.testrunner'):
+        return wrapped(*a, **kw)          # CrossHair's own behaviour for everything else
+    try:
+        from crosshair.core import deep_realize
+        key = (deep_realize(a), tuple(sorted(deep_realize(kw).items())))
+        hash(key)
+    except Exception:
+        return wrapped(*a, **kw)
+    d = MEMO.setdefault(id(self), {})
+    if key in d:
+        return d[key]
+    v = wrapped(*a, **kw)
+    d[key] = v
+    return v
+
+
+def install_faithful_lru():
+    import functools
+    import crosshair.core as CC
+    CC._PATCH_REGISTRATIONS[functools._lru_cache_wrapper.__call__] = faithful_lru_call
